@@ -68,13 +68,19 @@ func leafTS(leafInput []byte) uint64 { return binary.BigEndian.Uint64(leafInput[
 
 func (evenSecond) Matches(l *ct.LeafEntry) bool { return (leafTS(l.LeafInput)/1000)%2 == 0 }
 
+// oddSecond is its complement (so that every entry is wanted by one of the two leaf matchers).
+type oddSecond struct{}
+
+func (oddSecond) Matches(l *ct.LeafEntry) bool { return (leafTS(l.LeafInput)/1000)%2 == 1 }
+
 var (
 	reAlpha = regexp.MustCompile(`\.alpha\.test$`)
 	reBeta  = regexp.MustCompile(`\.beta\.test$`)
 )
 
-// selected says, from what the harness knows about how it built entry i, whether the configured matcher selects it.
-func selected(rc *RunCfg, e *Entry) bool {
+// wants says, from what the harness knows about how it built entry i, what the configured matcher (and PrecertOnly)
+// answers when it gets to see the entry.
+func wants(rc *RunCfg, e *Entry) bool {
 	if rc.PrecertOnly && !e.Precert {
 		return false
 	}
@@ -90,8 +96,25 @@ func selected(rc *RunCfg, e *Entry) bool {
 		return strings.HasSuffix(e.CN, ".alpha.test")
 	case "leaf":
 		return (e.TS/1000)%2 == 0
+	case "leafodd":
+		return (e.TS/1000)%2 == 1
 	}
 	panic("matcher " + rc.Matcher)
+}
+
+// mtype: a Matcher-type matcher is shown the parsed (pre-)certificate, a LeafMatcher the raw leaf.
+func mtype(rc *RunCfg) string {
+	if rc.Matcher == "leaf" || rc.Matcher == "leafodd" {
+		return "leaf"
+	}
+	return "matcher"
+}
+
+// selected is spec/client/ScanSelect.tla, Selected: the scan owes entry e a callback iff the matcher wants it and gets to
+// see it (a Matcher-type matcher is never shown an entry whose (pre-)certificate does not parse at all; one that parses
+// with non-fatal errors is matched like any other).
+func selected(rc *RunCfg, e *Entry) bool {
+	return wants(rc, e) && (mtype(rc) == "leaf" || e.Class != "fatal")
 }
 
 func matcherOf(rc *RunCfg) interface{} {
@@ -104,6 +127,8 @@ func matcherOf(rc *RunCfg) interface{} {
 		return &scanner.MatchSubjectRegex{CertificateSubjectRegex: reAlpha, PrecertificateSubjectRegex: reBeta}
 	case "leaf":
 		return evenSecond{}
+	case "leafodd":
+		return oddSecond{}
 	}
 	panic("matcher " + rc.Matcher)
 }
@@ -130,18 +155,19 @@ func execute(t *testing.T, w *World, rc *RunCfg, fk *Fake, rep *vh.Report) (out 
 	ctx, cancel := context.WithCancel(context.Background())
 	defer cancel()
 	fk.cancel = cancel
-	kinds, sels := make([]string, MaxN), make([]int, MaxN)
+	kinds, classes, wts := make([]string, MaxN), make([]string, MaxN), make([]int, MaxN)
 	for i := range w.Entries {
 		kinds[i] = "x"
 		if w.Entries[i].Precert {
 			kinds[i] = "p"
 		}
-		if rc.Mode == "scan" && selected(rc, &w.Entries[i]) {
-			sels[i] = 1
+		classes[i] = w.Entries[i].Class
+		if rc.Mode == "scan" && wants(rc, &w.Entries[i]) {
+			wts[i] = 1
 		}
 	}
 	fk.Emit(map[string]any{"ev": "Reset", "start": rc.Start, "end": rc.End, "batch": rc.Batch, "nw": rc.NW, "cont": rc.Cont,
-		"init": rc.Init, "mode": rc.Mode, "kind": kinds, "sel": sels, "script": rc.Script, "rc": rcJSON(rc)}, nil)
+		"init": rc.Init, "mode": rc.Mode, "kind": kinds, "class": classes, "wants": wts, "mtype": mtype(rc), "script": rc.Script, "rc": rcJSON(rc)}, nil)
 
 	opts := scanner.FetcherOptions{BatchSize: rc.Batch, ParallelFetch: rc.NW, StartIndex: rc.Start, EndIndex: rc.End, Continuous: rc.Cont}
 	done := make(chan error, 1)
@@ -413,8 +439,8 @@ func (f *Fake) checkCallbacks(rep *vh.Report, rc *RunCfg, lo, hi int64, complete
 			want = "precert"
 		}
 		if !selected(rc, e) {
-			rep.Violate(fp+":callback-unselected", fmt.Sprintf("matcher %s (precertOnly=%v) does not select entry %d (%s, precert=%v) but a callback was invoked",
-				rc.Matcher, rc.PrecertOnly, i, e.CN, e.Precert), replayOf(rc, f))
+			rep.Violate(fp+":callback-unselected:"+e.Class, fmt.Sprintf("matcher %s (precertOnly=%v) does not select entry %d (%s, precert=%v, parse class %s) but a callback was invoked",
+				rc.Matcher, rc.PrecertOnly, i, e.CN, e.Precert, e.Class), replayOf(rc, f))
 		}
 		if len(ks) > 1 {
 			rep.Violate(fp+":callback-repeated", fmt.Sprintf("%d callbacks for entry %d", len(ks), i), replayOf(rc, f))
@@ -428,8 +454,9 @@ func (f *Fake) checkCallbacks(rep *vh.Report, rc *RunCfg, lo, hi int64, complete
 	if complete {
 		for i := lo; i < hi && i < MaxN; i++ {
 			if selected(rc, &f.w.Entries[i]) && len(f.certs[i]) == 0 {
-				rep.Violate(fp+":callback-missing", fmt.Sprintf("matcher %s selects entry %d of the range [%d,%d) but no callback was invoked",
-					rc.Matcher, i, lo, hi), replayOf(rc, f))
+				e := &f.w.Entries[i]
+				rep.Violate(fp+":callback-missing:"+e.Class, fmt.Sprintf("matcher %s selects entry %d (precert=%v, parse class %s) of the range [%d,%d) but no callback was invoked",
+					rc.Matcher, i, e.Precert, e.Class, lo, hi), replayOf(rc, f))
 			}
 		}
 	}
@@ -576,6 +603,9 @@ func TestReplay(t *testing.T) {
 		}
 	}()
 	w := NewWorld(vh.Rand(16))
+	if err := w.CheckClasses(); err != nil {
+		t.Fatal(err)
+	}
 	rec, err := vh.NewRecorder("traces.ndjson")
 	if err != nil {
 		t.Fatal(err)
@@ -586,7 +616,7 @@ func TestReplay(t *testing.T) {
 				continue
 			}
 			rc := &RunCfg{Start: run.Cfg.Start, End: run.Cfg.End, Batch: run.Cfg.Batch, NW: run.Cfg.NW, Cont: run.Cfg.Cont, Init: run.Cfg.Init,
-				Mode: mode, Matcher: []string{"all", "regex", "leaf", "none"}[idx/3%4], PrecertOnly: idx%5 == 0, NMatch: 1 + idx%3, Buf: idx % 4,
+				Mode: mode, Matcher: []string{"all", "regex", "leaf", "leafodd", "all", "none"}[idx/3%6], PrecertOnly: idx%5 == 0, NMatch: 1 + idx%3, Buf: idx % 4,
 				Final: run.Final, EndWith: "stop", Script: idx}
 			fk := newFake(w, rc, int64(idx))
 			fk.script(&run)
@@ -604,6 +634,7 @@ func TestReplay(t *testing.T) {
 			if mode == "fetch" {
 				compareBatches(rep, rc, fk, &run)
 			}
+			countCallbacks(rep, rc, fk)
 			rep.Eval(classOf(rc, fk, out))
 			if idx < 2 && mode == "fetch" {
 				rep.Sample(map[string]any{"config": rc, "events": len(fk.ev), "batches": fk.batches})
@@ -651,7 +682,7 @@ func randomCfg(rng *rand.Rand, tr int) *RunCfg {
 	}
 	if rng.Intn(3) == 0 {
 		rc.Mode = "scan"
-		rc.Matcher = []string{"all", "none", "regex", "leaf"}[rng.Intn(4)]
+		rc.Matcher = []string{"all", "all", "none", "regex", "leaf", "leafodd"}[rng.Intn(6)]
 		rc.PrecertOnly = rng.Intn(4) == 0
 		rc.NMatch = 1 + rng.Intn(3)
 		rc.Buf = rng.Intn(4)
@@ -684,6 +715,9 @@ func TestTrace(t *testing.T) {
 		}
 	}()
 	w := NewWorld(vh.Rand(16))
+	if err := w.CheckClasses(); err != nil {
+		t.Fatal(err)
+	}
 	rec, err := vh.NewRecorder("traces.ndjson")
 	if err != nil {
 		t.Fatal(err)
@@ -702,6 +736,7 @@ func TestTrace(t *testing.T) {
 		if tr < 2 {
 			rep.Sample(map[string]any{"config": rc, "events": len(fk.ev), "batches": fk.batches})
 		}
+		countCallbacks(rep, rc, fk)
 		rep.Add("requests", fk.nreq)
 		rep.Add("short_reads", fk.shorts)
 		rep.Add("request_errors", fk.reqErrs)
@@ -736,6 +771,9 @@ func TestOne(t *testing.T) {
 		}
 	}()
 	w := NewWorld(vh.Rand(16))
+	if err := w.CheckClasses(); err != nil {
+		t.Fatal(err)
+	}
 	rec, err := vh.NewRecorder("traces.ndjson")
 	if err != nil {
 		t.Fatal(err)
@@ -759,6 +797,35 @@ func TestOne(t *testing.T) {
 	}
 	if err := rec.Close(); err != nil {
 		t.Fatal(err)
+	}
+}
+
+// countCallbacks records, per (matcher type, entry kind, parse class), how many callbacks were seen and how many fetched
+// entries were left without one: the coverage of the entry-class dimension.
+func countCallbacks(rep *vh.Report, rc *RunCfg, fk *Fake) {
+	if rc.Mode != "scan" {
+		return
+	}
+	seen := map[int64]bool{}
+	for _, ev := range fk.ev {
+		if ev["ev"] == "Rsp" && ev["err"] == "" {
+			s := ev["start"].(int64)
+			for i := int64(0); i < int64(ev["n"].(int)); i++ {
+				seen[s+i] = true
+			}
+		}
+	}
+	for i := range seen {
+		e := &fk.w.Entries[i]
+		k := "x509"
+		if e.Precert {
+			k = "precert"
+		}
+		what := "nocallback"
+		if len(fk.certs[i]) > 0 {
+			what = "callback"
+		}
+		rep.Add(fmt.Sprintf("scan_%s_%s_%s_%s", mtype(rc), k, e.Class, what), 1)
 	}
 }
 
@@ -789,6 +856,9 @@ func TestBeyondTree(t *testing.T) {
 		}
 	}()
 	w := NewWorld(vh.Rand(16))
+	if err := w.CheckClasses(); err != nil {
+		t.Fatal(err)
+	}
 	rng := vh.Rand(77)
 	for k := 0; k < 24; k++ {
 		rc := &RunCfg{Script: -1, Mode: "fetch", Matcher: "all", NMatch: 1, Cont: true, EndWith: "stop"}
